@@ -49,6 +49,7 @@ struct Dest
    std::bitset< 16>                         b;
    std::vector< bool>                       vb;
    std::string                              pos;
+   std::string                              cmd;
    int                                      verbose_level = 0;
    bool                                     verbose = false, version = false;
    int                                      sub_i = 0;
@@ -74,12 +75,12 @@ struct Dest
       os_ << " t=" << std::get< 0>( t) << "[" << std::get< 1>( t) << "]" << std::get< 2>( t);
       os_ << " b=" << b.to_string() << " vb=";
       for (bool v : vb) os_ << (v ? '1' : '0');
-      os_ << " pos=[" << pos << "] vl=" << verbose_level << verbose << version << " sub=" << sub_i << "[" << sub_s << "]";
+      os_ << " pos=[" << pos << "] cmd=[" << cmd << "] vl=" << verbose_level << verbose << version << " sub=" << sub_i << "[" << sub_s << "]";
       return os_.str();
    }
 };
 
-enum ArgKind { kFlag, kInt, kUnsigned, kDouble, kStr, kOptInt, kOptStr, kIntList, kStrList, kMap, kTuple, kBits, kPositional };
+enum ArgKind { kFlag, kInt, kUnsigned, kDouble, kStr, kOptInt, kOptStr, kIntList, kStrList, kMap, kTuple, kBits, kPositional, kCommand };
 
 /// what the generators need to know about one defined argument
 struct ArgInfo
@@ -312,6 +313,13 @@ inline void build( Handler& h, Handler* sub, Dest& d, const Json& recipe, Built&
       ArgInfo  i1{ "", "", kPositional};
       out.args.push_back( i1);
    }
+   if (has( recipe, "R13"))
+   {
+      // value mode "command": this argument takes the rest of the line as one string
+      auto  a1 = h.addArgument( "j,exec", DEST_VAR( d.cmd), "command");
+      tryOpt( out, "ValueMode::command", [ &] { a1->setValueMode( Handler::ValueMode::command); });
+      out.args.push_back( ArgInfo{ "j", "exec", kCommand});
+   }
    if (has( recipe, "R14") && sub != nullptr)
    {
       sub->addArgument( "n,sub-int", DEST_VAR( d.sub_i), "sub int");
@@ -352,7 +360,7 @@ inline void describeRecipe( const Json& recipe, Built& out, bool with_subgroup)
 }
 
 /// draws a recipe (which sets, which options)
-inline Json genRecipe( Rng& rng, bool allow_positional, bool allow_subgroup)
+inline Json genRecipe( Rng& rng, bool allow_positional, bool allow_subgroup, bool allow_command = false)
 {
    static const char* const  sets[] = { "R1", "R2", "R3", "R4", "R5", "R6", "R7", "R8", "R11" };
    Json  r = Json::object();
@@ -370,6 +378,7 @@ inline Json genRecipe( Rng& rng, bool allow_positional, bool allow_subgroup)
    const bool  multi = rng.chance( 1, 3);
    if (allow_positional && !multi && rng.chance( 1, 4)) chosen.push( "R12");
    if (allow_subgroup && rng.chance( 1, 6)) chosen.push( "R14");
+   if (allow_command && rng.chance( 1, 5)) chosen.push( "R13");
    r[ "sets"] = chosen;
    static const char* const  seps[] = { ",", ",", ";", ":", ".", "+", "|" };
    r[ "sep"] = seps[ rng.below( 7)];
@@ -473,6 +482,14 @@ inline std::vector< std::string> genValues( Rng& rng, const ArgInfo& a, bool hos
       break;
    }
    case kPositional: v.push_back( genStringValue( rng, "", false)); break;
+   case kCommand:
+   {
+      // the command and its own arguments (may be empty: the key is the last word)
+      const size_t  n = static_cast< size_t>( rng.below( 4));
+      for (size_t k = 0; k < n; ++k)
+         v.push_back( rng.chance( 1, 3) ? "-" + genStringValue( rng, "", false) : genStringValue( rng, "", false));
+      break;
+   }
    }
    return v;
 }
@@ -575,13 +592,15 @@ inline std::string punctWord( Rng& rng)
 /// words of a rule-obeying line for the recipe, then optionally mutated
 inline std::vector< std::string> grammarWords( Rng& rng, const Built& built, bool mutate)
 {
-   std::vector< std::string>  words;
+   std::vector< std::string>  words, command_words;
    for (auto const& a : built.args)
    {
       if (rng.chance( 1, 2)) continue;
       auto  w = genWords( rng, a, genValues( rng, a, true));
-      words.insert( words.end(), w.begin(), w.end());
+      if (a.kind == kCommand) command_words = w;   // takes the rest of the line: goes last
+      else words.insert( words.end(), w.begin(), w.end());
    }
+   words.insert( words.end(), command_words.begin(), command_words.end());
    if (!mutate || words.empty())
       return words;
    const size_t  nm = 1 + static_cast< size_t>( rng.below( 3));
